@@ -128,6 +128,29 @@ def run(ctx):
                     nd += 1
                     if nd == 1:
                         ctx.broken.append(f"compiled correspondence (presentation siblings): {json.dumps(pr['ty'])[:120]} {k}: impl={json.dumps(r.get(k))[:300]} model={json.dumps(m.get(k))[:300]}")
+    # C14_checked_unfolding: the REAL declarations (with their `inline` marks) are unfoldings of the tree-level declarations of the
+    # program without the marks, as judged by the proven-sound executable test
+    ilines = []
+    for prog, R in zip(clean, real):
+        byname = {}
+        for pr, r in zip(prog["probes"], R):
+            if pr["ty"]["k"] == "named" and "ok" in r.get("decl", {}):
+                byname.setdefault(pr["ty"]["id"], r["decl"]["ok"])
+        ilines.append({"op": "inline_check", "items": prog["items"], "decls": [byname.get(it["name"], "") for it in prog["items"]]})
+    ires = vlib.run_model([c.chars] + ilines)
+    n_marked = n_sub = 0
+    for pi, r in enumerate((ires or [None])[1:]):
+        if not r.get("frag") or not r.get("sub"):
+            continue
+        n_sub += r["sub"]
+        n_marked += r.get("marked", 0)
+        if not r.get("wsd") or not r.get("unf"):
+            ctx.broken.append(f"a real declaration is not an unfolding of the tree-level declaration without inline marks (tie of C14_checked_unfolding): program {pi} items {r.get('bad')} wsd={r.get('wsd')}")
+    if ires is None:
+        ctx.broken.append("inline_check: model driver unavailable")
+    ctx.stream("real declarations as unfoldings (inline)", n_sub, n_marked,
+               "every sibling program: marks removed, largest closed sub-program inside the fragment of C01_items_sound, its tree-level declarations D against the parsed REAL "
+               "declarations D' through `declsUnfB` (sound for `DeclsUnf`), `wsdB D`; non-trivial = items carrying an inline mark inside the sub-program", [], {"items": n_sub, "marked": n_marked})
     qs, meta = [], []
     for prog, R in zip(progs, real):
         base_decls = [r["decl"]["ok"] for pr, r in zip(prog["probes"], R) if "_tag" not in pr and "ok" in r.get("decl", {})]
